@@ -704,20 +704,23 @@ def case_dist(ctx, k, cid):
     from pyunicorn.core.geo_grid import GeoGrid
     r = ctx.rng("dist", k)
     n = int(r.integers(2, 25))
-    A = gg.gnp(r, n, float(r.choice([0.0, 0.2, 0.6])))
+    # (the network that is re-linked may itself be directed: the result is
+    #  documented as an undirected network all the same)
+    was_directed = bool(r.random() < 0.3)
+    A = gg.gnp(r, n, float(r.choice([0.0, 0.2, 0.6])), was_directed)
     geo = bool(k % 2)
     if geo:
         lat = r.uniform(-90, 90, n)
         lon = r.uniform(-180, 180, n)
         grid = GeoGrid(np.arange(2.0), lat, lon, silence_level=3)
         ok, net = ctx.call(GeoNetwork, grid, adjacency=A.copy(),
-                           silence_level=3)
+                           directed=was_directed, silence_level=3)
         a = float(r.choice([0.0, -0.5, -1.0, 1.0, -60.0]))
         b = float(r.choice([0.0, -1.0, -4.0]))
     else:
         grid = Grid(np.arange(2.0), r.random((2, n)), silence_level=3)
         ok, net = ctx.call(SpatialNetwork, grid, adjacency=A.copy(),
-                           silence_level=3)
+                           directed=was_directed, silence_level=3)
         a = float(r.choice([0.0, -0.5, -1.0, 1.0, -60.0]))
         b = float(r.choice([0.0, -2.0, -8.0]))
     if not ok:
@@ -725,7 +728,8 @@ def case_dist(ctx, k, cid):
         return
     op = "set_random_links_by_distance"
     seed = seed_lib(r)
-    det = {"seed": seed, "n": n, "geo": geo, "a": a, "b": b}
+    det = {"seed": seed, "n": n, "geo": geo, "a": a, "b": b,
+           "input_directed": was_directed}
     pre = net_invariant(net)
     if pre:
         ctx.count("input_already_breaks_I_net:" + type(net).__name__)
@@ -745,8 +749,10 @@ def case_dist(ctx, k, cid):
     if br:
         ctx.violation(f"{op}:not-simple:{br[0]}", {**det, "broken": br}, cid)
         return
-    if net.directed:
+    if net.directed and not was_directed:
         ctx.violation(f"{op}:result-directed", det, cid)
+    if was_directed:
+        ctx.count("dist_links_from_directed_input")
     s = int(A1.sum())
     if a + b * 0 >= 0 and b == 0.0 and s != n * (n - 1):
         ctx.violation(f"{op}:probability-1-not-complete", det, cid)
